@@ -92,7 +92,8 @@ var prioGoNames = []string{"A", "B", "Ab", "AB", "ABc", "HTTPPort", "ListenAddr"
 	"Base64URL", "Http2TLS", "S3AccessKey", "Utf8BOM", "A1B", "Ab12CD", "X9Yz", "Md5Sum", "Sha256ID", "V2", "I18nKey", "OAuth2URL",
 	"ConfigB64", "Port", "Name", "N", "V", "Debug", "TimeoutMs", "I64", "Key_ID", "Q_", "R2D2", "Inner", "Opt", "LogLevel", "Y"}
 
-var prioTagNames = []string{"p", "port", "a-b", "x.y", "n1", "é", "listen", "v", "d", "level", "t-5", "k", "q", "name", "w", "0", "x y", "a_b"}
+var prioTagNames = []string{"p", "port", "a-b", "x.y", "n1", "é", "listen", "v", "d", "level", "t-5", "k", "q", "name", "w", "0", "x y", "a_b",
+	"V", "Port", "P", "K", "Name", "É"} // names are case-sensitive: v and V are two flags
 
 func prioGenFields(r *Rng, depth int, counter *int) []*prioField {
 	n := 1 + r.Intn(4)
@@ -276,10 +277,10 @@ func prioGenJSON(r *Rng, k configKind) prioJSONVal {
 		b := r.Bool()
 		return prioJSONVal{strconv.FormatBool(b), strconv.FormatBool(b)}
 	case ckInt, ckInt64:
-		v := Pick(r, []int64{0, 5, -5, 42, math.MaxInt64, math.MinInt64, 1000000})
+		v := Pick(r, []int64{0, 5, -5, 42, math.MaxInt64, math.MinInt64, 1000000, 9007199254740993, -9007199254740995, 1<<62 + 1})
 		return prioJSONVal{strconv.FormatInt(v, 10), strconv.FormatInt(v, 10)}
 	case ckUint, ckUint64:
-		v := Pick(r, []uint64{0, 5, 42, math.MaxUint64, 1 << 40})
+		v := Pick(r, []uint64{0, 5, 42, math.MaxUint64, 1 << 40, 9007199254740993, 1<<63 + 3})
 		return prioJSONVal{strconv.FormatUint(v, 10), strconv.FormatUint(v, 10)}
 	case ckString:
 		s := Pick(r, []string{"", "a", "a=b", "héllo", "-b", "x y", "json\"quoted\"", "tab\t", "日本",
